@@ -629,6 +629,8 @@ func mergeAndPersistSynonymSection(segments []*SegmentBase, dropsIn []*roaring.B
 		}
 
 		var prevTerm []byte
+		// prevTerm alone cannot tell "no term yet" from the empty term
+		var seenTerm bool
 
 		newRoaring.Clear()
 
@@ -652,7 +654,7 @@ func mergeAndPersistSynonymSection(segments []*SegmentBase, dropsIn []*roaring.B
 		for err == nil {
 			term, itrI, postingsOffset := enumerator.Current()
 
-			if prevTerm != nil && !bytes.Equal(prevTerm, term) {
+			if seenTerm && !bytes.Equal(prevTerm, term) {
 				// check for the closure in meantime
 				if isClosed(closeCh) {
 					return nil, nil, seg.ErrClosed
@@ -700,6 +702,7 @@ func mergeAndPersistSynonymSection(segments []*SegmentBase, dropsIn []*roaring.B
 
 			prevTerm = prevTerm[:0] // copy to prevTerm in case Next() reuses term mem
 			prevTerm = append(prevTerm, term...)
+			seenTerm = true
 			err = enumerator.Next()
 		}
 		if err != vellum.ErrIteratorDone {
@@ -711,7 +714,7 @@ func mergeAndPersistSynonymSection(segments []*SegmentBase, dropsIn []*roaring.B
 			return nil, nil, err
 		}
 
-		if prevTerm != nil {
+		if seenTerm {
 			err = finishTerm(prevTerm)
 			if err != nil {
 				return nil, nil, err
